@@ -9,6 +9,7 @@ import (
 	"sync/atomic"
 	"testing"
 
+	"github.com/prometheus/prometheus/promql/parser"
 	"pgregory.net/rapid"
 	"verif/internal/ev"
 )
@@ -86,8 +87,9 @@ func runRung(t *testing.T, campaign string, rung int) {
 			c.Nontrivial(cj)
 			c.Sample(map[string]any{"series": len(d.Series), "queries": cj.Queries})
 		}
-		// a discrepancy counts when it shows again after the sample set was loaded into a fresh database (that is what
-		// the replay does); otherwise it is counted and logged (state-dependent behaviour of the storage, not re-executable)
+		// a discrepancy counts when it shows again on a server process started for the case alone (that is what the
+		// replay does); otherwise it is counted and logged: behaviour that depends on the history of a long-lived
+		// server is not re-executable from the case
 		var confirmed []Violation
 		for _, v := range vs {
 			if v.Query.Expr == "" {
@@ -95,21 +97,23 @@ func runRung(t *testing.T, campaign string, rung int) {
 				continue
 			}
 			one := &CaseJ{Kind: "promql", Data: d, Queries: []QueryJ{v.Query}}
-			var again []Violation
-			for k := 0; k < 2; k++ { // must show on two further fresh loads
-				if again = runCase(one, func(int, string) {}, false); len(again) == 0 {
-					break
-				}
-			}
-			if len(again) > 0 {
+			if again := runOnFreshServer(one); len(again) > 0 {
 				confirmed = append(confirmed, again[0])
 			} else {
-				c.Class("discrepancy_not_reproduced_after_reload")
+				c.Class("discrepancy_not_reproduced_on_fresh_server")
 				b, _ := json.Marshal(one)
-				fmt.Fprintf(os.Stderr, "C18 discrepancy not reproduced after reload: %.600s\n case: %s\n", strings.ReplaceAll(v.Msg, "\n", " | "), b)
+				fmt.Fprintf(os.Stderr, "C18 discrepancy not reproduced on a fresh server: %.600s\n case: %s\n", strings.ReplaceAll(v.Msg, "\n", " | "), b)
+				ev.Note(campaign, fmt.Sprintf("not_reproduced_on_fresh_server_%d_%d", os.Getpid(), surveySeq.Add(1)), fmt.Sprintf("%.300s", strings.ReplaceAll(v.Msg, "\n", " | ")))
 			}
 		}
 		vs = confirmed
+		if survey && os.Getenv("C18_DIAG") != "" {
+			for _, v := range vs {
+				if v.Query.Expr != "" {
+					diagnose(&d, v.Query)
+				}
+			}
+		}
 		if survey {
 			for _, v := range vs {
 				b, _ := json.Marshal(&CaseJ{Kind: "promql", Data: d, Queries: []QueryJ{v.Query}})
@@ -136,3 +140,29 @@ func TestRangeFuncs(t *testing.T)   { runRung(t, "range_functions", rungRangeFn)
 func TestAggregations(t *testing.T) { runRung(t, "aggregations", rungAgg) }
 func TestBinops(t *testing.T)       { runRung(t, "binary_operators", rungBinop) }
 func TestCombos(t *testing.T)       { runRung(t, "combinations", rungCombo) }
+
+// diagnose (manual aid): loads the sample set once more and prints both answers for the query and for each of its selectors.
+func diagnose(d *DataJ, q QueryJ) {
+	l, msg := load(d)
+	if msg != "" {
+		fmt.Println("DIAG load:", msg)
+		return
+	}
+	show := func(e string) {
+		got, _, _, _ := promQuery(l.s, l.db, e, d.Base+q.Start, d.Base+q.End, q.Step)
+		want := refQuery(l.ref, e, d.Base+q.Start, d.Base+q.End, q.Step)
+		fmt.Printf("DIAG %s\n  server: %s\n  ref:    %s\n", e, got, want)
+	}
+	show(q.Expr)
+	if expr, err := parser.ParseExpr(q.Expr); err == nil {
+		for _, u := range selectorsOf(expr) {
+			show(u.vs.String())
+		}
+	}
+	show(q.Expr)
+	r, _ := l.s.Query(l.db, "select value from /.*/ group by *", nil)
+	if r != nil {
+		fmt.Printf("DIAG raw: %.3000s\n", r.Raw)
+	}
+	fmt.Printf("DIAG files: %v\n", l.s.Files(""))
+}
